@@ -30,7 +30,7 @@ RULE = (
 )
 ASSUMPTIONS = ["overlay semantics re-implemented independently of confectioner.mix (sections merged key by key, lists and scalars replaced)"]
 FLOORS = {"wrapper_cases": (1500, 40000), "dataset_preset_cases": (800, 20000), "derivative_cases": (800, 20000),
-          "snapshots_checked": (8000, 200000), "overlay_mattered": (500, 10000), "inplace_history_steps": (3000, 80000), "prefix_named_key_steps": (190, 190), "map_overlay_cases": (800, 20000), "map_overlay_multi": (250, 6000)}
+          "snapshots_checked": (8000, 200000), "overlay_mattered": (500, 10000), "inplace_history_steps": (3000, 80000), "prefix_named_key_steps": (190, 190), "map_overlay_cases": (800, 20000), "map_overlay_multi": (250, 6000), "scalar_between_sections_cases": (190, 190)}
 SHARDS_QUICK = 4
 
 
@@ -343,6 +343,23 @@ def map_overlay_case(ctx, r):
         ctx.nontrivial(spec_hash(["map-overlay", mprog, o]))
 
 
+def scalar_between_sections(ctx):
+    """Nested wrappers of one kind where a MIDDLE layer holds a scalar (or null, or a list) under a name that its
+    neighbours hold as a section: overlaying is applied layer by layer - a scalar replaces a section, a later section
+    replaces the scalar - so the layers cannot be merged into one dictionary beforehand."""
+    X = {"k": "tuple", "items": [{"k": "opt", "key": "S", "dk": "const", "dv": {"none": 0}}, {"k": "opt", "key": "A", "dk": "const", "dv": 0}]}
+    prog = {"datasets": {}, "root": X}
+    for force in (True, False):
+        for middle in (0, None, "", [1], 1.5, "txt"):
+            for layers in ([{"S": {"X": 1}}, {"S": middle}], [{"S": middle}, {"S": {"X": 1}}], [{"S": {"X": 1}}, {"S": middle}, {"S": {"Z": 3}}],
+                           [{"S": {"Z": 3}, "A": 1}, {"S": middle}, {"S": {"X": 1}}]):
+                wrappers = [(copy.deepcopy(P), force) for P in layers]
+                for o in ({"S": {"X": 9, "Y": 9, "Z": 9}}, {}, {"S": 5, "A": 2}, {"S": {"Y": 1}}):
+                    n0 = ctx.counters.get("wrapper_cases", 0)
+                    wrapper_compare(ctx, prog, wrappers, copy.deepcopy(o))
+                    ctx.count("scalar_between_sections_cases", ctx.counters.get("wrapper_cases", 0) - n0)
+
+
 def prefix_named_keys(ctx):
     """Derivatives of ONE dataset share its store; what keeps their values apart is the merged dictionary alone.
     Option names that are string prefixes of each other (A / AB, S.X / S.XL) are the adversarial alphabet for that."""
@@ -365,6 +382,8 @@ def prefix_named_keys(ctx):
 def run(ctx):
     if ctx.shard == 0:
         prefix_named_keys(ctx)
+    if ctx.shard == 1 % ctx.shards:
+        scalar_between_sections(ctx)
     n = ctx.n(900, 24000)
     for i in range(n):
         r = case_rng(ctx, i)
